@@ -262,7 +262,9 @@ static std::string run_case(const std::string &line)
             else
                 R.o << "0";
             bool exists = ref_gcd(a, m) == 1;
-            if (ok != exists)
+            if (m == 0)
+                ; // undefined for mpz_invert
+            else if (ok != exists)
                 R.bad("invert-existence", "mp_invert(" + zs(a) + "," + zs(m) + ") returned " + (ok ? "true" : "false"));
             else if (ok && !(r >= 0 && (r < zabs(m)) && ref_mod(a * r - 1, m) == 0))
                 R.bad("invert-value", "mp_invert(" + zs(a) + "," + zs(m) + ") = " + zs(r));
